@@ -895,6 +895,8 @@ theorem step_group {s s' : State} {op : Op} (h : step s op = .ok s') :
     obtain ⟨msgs, hd⟩ := step_distribute_ok h
     obtain ⟨b1, _, _, _, hs⟩ := distribute_ok hd
     rw [hs]; exact ⟨rfl, rfl, id⟩
+  | raw sender funds => simp [step] at h
+  | migrate sender => simp [step] at h; subst h; exact ⟨rfl, rfl, id⟩
 
 theorem step'_wf {s : State} (op : Op) (h : SWF s) : SWF (step' s op) := by
   unfold step'
@@ -982,6 +984,8 @@ theorem supply_step' (s : State) (op : Op) (d : Denom) :
       obtain ⟨b1, hb1, _, he, _⟩ := distribute_ok hd
       simp only [mintedOp, Nat.add_zero]
       rw [supply_execPays he d, supply_attachFunds hb1 d]
+    | raw sender funds => simp [step] at hs
+    | migrate sender => simp [step] at hs; subst hs; simp [mintedOp]
   · next e hs =>
     -- a failed mint minted nothing: all its coins are zero
     cases op with
@@ -1011,5 +1015,151 @@ theorem supply_run (s : State) (ops : List Op) (d : Denom) :
   | cons op ops ih =>
     simp only [run, List.foldl, List.map_cons, List.sum_cons] at ih ⊢
     rw [ih, supply_step']; omega
+
+/-! ## round 3: payments without any hypothesis about who is paid, occurrences of a denom, bank frame of the other ops -/
+
+/-- payments of denom `d` addressed to accounts other than the contract -/
+def sumDenNS (self : Addr) (d : Denom) : List Pay → Nat
+  | [] => 0
+  | p :: ps => (if p.to ≠ self ∧ p.denom = d then p.amount else 0) + sumDenNS self d ps
+
+theorem sumDenNS_add_sumTo (self : Addr) (d : Denom) (ps : List Pay) :
+    sumDenNS self d ps + sumTo self d ps = sumDen d ps := by
+  induction ps with
+  | nil => rfl
+  | cons p ps ih =>
+    simp only [sumDenNS, sumTo, sumDen]
+    by_cases hp : p.to = self <;> by_cases hd : p.denom = d <;> simp [hp, hd] <;> omega
+
+/-- executing ANY payment list (the contract may be among the recipients: such a payment is a transfer from an
+account to itself): the contract is debited by exactly what is addressed to OTHERS, every other account is
+credited by exactly what is addressed to it -/
+theorem execPays_general {self : Addr} {ps : List Pay} {b b' : Bank} (h : execPays b self ps = some b') :
+    (∀ d, bal b' self d + sumDenNS self d ps = bal b self d) ∧
+    (∀ a d, a ≠ self → bal b' a d = bal b a d + sumTo a d ps) := by
+  induction ps generalizing b with
+  | nil => simp [execPays] at h; subst h; simp [sumDenNS, sumTo]
+  | cons p ps ih =>
+    simp only [execPays] at h
+    split at h
+    · simp at h
+    · next b1 hd =>
+      obtain ⟨ih1, ih2⟩ := ih h
+      obtain ⟨_, hb1, _⟩ := debit_some hd
+      refine ⟨?_, ?_⟩
+      · intro d
+        have e1 := ih1 d
+        rw [bal_credit] at e1
+        have e2 := hb1 self d
+        simp only [sumDenNS]
+        by_cases hp : p.to = self <;> by_cases hdd : p.denom = d <;> simp [hp, hdd] at e1 e2 ⊢ <;> omega
+      · intro a d ha
+        rw [ih2 a d ha, bal_credit]
+        have e2 := hb1 a d
+        have : ¬ (self = a ∧ p.denom = d) := fun hh => ha hh.1.symm
+        simp [this] at e2
+        simp only [sumTo]
+        rw [e2]; omega
+
+/-- how many times a call selects denom `d`: once without a list (`query_all_balances` has every denom once),
+otherwise as often as the list names it (`denom_list` is not de-duplicated by the contract) -/
+def occ (denoms : Option (List Denom)) (d : Denom) : Nat :=
+  match denoms with
+  | none => 1
+  | some l => l.count d
+
+theorem selectFunds_qsum {b : Bank} {self : Addr} {denoms : Option (List Denom)} {order : List Denom} {funds : List Coin}
+    (h : selectFunds b self denoms order = .ok funds) (d : Denom) (T : Nat) :
+    qsum d T funds = occ denoms d * (bal b self d / T) := by
+  unfold selectFunds at h
+  split at h
+  · next l =>
+    simp at h; subst h
+    rw [qsum_map]
+    by_cases hb : bal b self d = 0
+    · simp [hb]
+    · have : (l.filter (fun x => bal b self x != 0)).count d = l.count d := by
+        apply List.count_filter; simpa using hb
+      rw [this]; rfl
+  · split at h
+    · next hv =>
+      simp at h; subst h
+      obtain ⟨hn, hm⟩ := validOrder_spec hv
+      rw [qsum_map, hn.count]
+      by_cases hb : bal b self d = 0
+      · simp [hb]
+      · simp [(hm d).mpr hb, occ]
+    · simp at h
+
+/-- **what one accepted distribution does, with no side condition at all** (the contract may be a member of its own
+group, a denom may be listed several times): every account other than the contract gains
+`weight × occurrences × floor(balance / total_weight)`, the contract loses exactly what the others gain -/
+theorem distribute_general {s : State} (hwf : GWF s.group.members s.group.total)
+    {sender : Addr} {denoms : Option (List Denom)} {order : List Denom} {msgs : List Pay} {b' : Bank}
+    (hm : distributeMsgs s sender denoms order = .ok msgs) (he : execPays s.bank s.self msgs = some b') :
+    (∀ a d, a ≠ s.self → bal b' a d = bal s.bank a d +
+        (lookupM s.group.members a).getD 0 * (occ denoms d * (bal s.bank s.self d / s.group.total))) ∧
+    (∀ d, bal b' s.self d + (s.group.total - (lookupM s.group.members s.self).getD 0) *
+        (occ denoms d * (bal s.bank s.self d / s.group.total)) = bal s.bank s.self d) := by
+  obtain ⟨_, _, _, hlen, funds, hf, _, hmsgs, _⟩ := distributeMsgs_ok hm
+  rw [listed_all hlen] at hmsgs
+  obtain ⟨h1, h2⟩ := execPays_general he
+  refine ⟨fun a d ha => ?_, fun d => ?_⟩
+  · rw [h2 a d ha, hmsgs, sumTo_payMsgs, selectFunds_qsum hf, wOf_eq_lookupM hwf.1]
+  · have e1 := h1 d
+    have e2 := sumDenNS_add_sumTo s.self d msgs
+    rw [hmsgs, sumDen_payMsgs, sumTo_payMsgs, selectFunds_qsum hf, wOf_eq_lookupM hwf.1, ← hwf.2] at e2
+    rw [Nat.sub_mul]
+    rw [← hmsgs] at e2
+    omega
+
+theorem bal_creditAll (b : Bank) (a : Addr) (cs : List Coin) (a' : Addr) (d' : Denom) :
+    bal b a' d' ≤ bal (creditAll b a cs) a' d' ∧ (a' ≠ a → bal (creditAll b a cs) a' d' = bal b a' d') := by
+  induction cs generalizing b with
+  | nil => simp [creditAll]
+  | cons c cs ih =>
+    simp only [creditAll]
+    obtain ⟨i1, i2⟩ := ih (credit b a c.denom c.amount)
+    rw [bal_credit] at i1
+    refine ⟨by omega, fun hne => ?_⟩
+    rw [i2 hne, bal_credit]
+    have : ¬ (a = a' ∧ c.denom = d') := fun hh => hne hh.1.symm
+    simp [this]
+
+theorem bal_debitAll_other {b : Bank} {a : Addr} {cs : List Coin} {b' : Bank} (h : debitAll b a cs = some b')
+    (a' : Addr) (d' : Denom) (hne : a' ≠ a) : bal b' a' d' = bal b a' d' := by
+  induction cs generalizing b with
+  | nil => simp [debitAll] at h; subst h; rfl
+  | cons c cs ih =>
+    simp only [debitAll] at h
+    split at h
+    · simp at h
+    · next b1 hd =>
+      rw [ih h]
+      have := (debit_some hd).2.1 a' d'
+      have hn : ¬ (a = a' ∧ c.denom = d') := fun hh => hne hh.1.symm
+      simp [hn] at this
+      exact this
+
+/-- a bank transfer never lowers the balance of anybody but its source -/
+theorem sendCoins_other_ge {b : Bank} {src dst : Addr} {coins : List Coin} {b' : Bank}
+    (h : sendCoins b src dst coins = some b') (a : Addr) (d : Denom) (hne : a ≠ src) : bal b a d ≤ bal b' a d := by
+  unfold sendCoins at h
+  split at h
+  · simp at h
+  · split at h
+    · simp at h
+    · next cs0 _ _ b1 hd =>
+      simp at h; subst h
+      have := (bal_creditAll b1 dst cs0 a d).1
+      rw [bal_debitAll_other hd a d hne] at this
+      exact this
+
+theorem mintCoins_ge {b : Bank} {dst : Addr} {coins : List Coin} {b' : Bank}
+    (h : mintCoins b dst coins = some b') (a : Addr) (d : Denom) : bal b a d ≤ bal b' a d := by
+  unfold mintCoins at h
+  split at h
+  · simp at h
+  · simp at h; subst h; exact (bal_creditAll b dst _ a d).1
 
 end LP.Splits
